@@ -174,7 +174,11 @@ CAL_RULE = ("block-hash correspondence: for each of the 9 calendar configuration
             "and (IsLeap, GetMonthLen, ToJd of every day) over year blocks of 256, model vs real code; every day/date in a "
             "block is also evaluated directly against the property on the real code. thorough = the whole quantified "
             "domain [-4*10^7, 4*10^7]; quick = dense window jd -4M..4M, cycle/anchor/table boundaries, the range ends, "
-            "24 seeded random blocks per configuration. distinct_nontrivial counts distinct blocks; evaluations counts days.")
+            "24 seeded random blocks per configuration. History: every 8th (thorough: 2nd) day block is walked a second time in descending "
+            "order and every answer compared with the first; every day is asked again after the harness has overwritten the result object; "
+            "ToJd must leave the date object it is given unchanged; stream cal-random-order = single conversions in random order in one process "
+            "per configuration plus every ordered pair of a hot set of days (start of the hijri table, cycle ends, random table days), against "
+            "the stateless model. distinct_nontrivial counts distinct blocks; evaluations counts days.")
 
 
 class _C01(CalSpec):
